@@ -1,20 +1,40 @@
 (* C11 — timers and dispatch_after never fire early and always fire.
    Models: Model/Heap.v (timer double heap; index arithmetic = Gen_timer, translated from src/event/event.c),
-   Model/TimerRun.v (compute_missed, _dispatch_timers_run, _program, configure/arm/disarm/resume, latch).
-   Both are tied to the library by the white-box correspondence (harness/c11_heap.c).
+   Model/TimerRun.v (compute_missed, _dispatch_timers_run, _program, configure/arm/disarm/resume, latch, the
+   arithmetic of dispatch_source_set_timer / DISPATCH_SOURCE_TYPE_INTERVAL / dispatch_after, the timerfd side of
+   event_epoll.c, and - last section - the source side: when src/source.c issues install / configure / latch /
+   unregister / _dispatch_unote_resume on a timer source (_dispatch_source_wakeup, _dispatch_source_invoke2)).
+   Tied to the library by the white-box correspondences (harness/c11_heap.c, c11_cfg.c, c11_epoll.c), the replay
+   of recorded runs of the whole library through the model (harness/c11_trace.c) and the public-API oracle (c11_e2e.c).
 
    Proved for every population and every history: the heap (1-5), compute_missed (6-7), never early (8), the state
-   invariant of the whole machine over every reachable state and the run fixpoint (9), programming / the manager's pass /
-   ALWAYS FIRES as an invariant of every reachable state (10-10c), set_timer replaces (11), the arithmetic of
-   dispatch_source_set_timer and dispatch_after incl. the out-of-range `when` (13-14).
-   Termination of _dispatch_timers_run and of the manager's pass is proved (C11_run_total, C11_manager_pass): no theorem
-   carries a "leaves its loop" hypothesis any more.
-   12 covers one invocation, 12b every history of fires and invocations of one configuration (clamp at LONG_MAX
-   excluded: impossible below 2^63 ns).
-   Out of the model: timerfd/epoll delivering the expiry, the hop of the fired source to its target queue (C15/C01),
-   DISPATCH_SOURCE_TYPE_INTERVAL's _dispatch_interval_config_create. *)
+   invariant of the whole machine over every reachable state and the run fixpoint (9), programming / the manager's pass
+   (10-10b), ALWAYS FIRES (10c, 10c', 10c''), set_timer replaces (11), counts (12, 12b), the arithmetic of
+   dispatch_source_set_timer, of interval sources and of dispatch_after incl. the out-of-range `when` (13-14),
+   dispatch_after fires at most once (15).
+   Termination of _dispatch_timers_run and of the manager's pass is proved (C11_run_total, C11_manager_pass).
+
+   GRANULARITY (applies to 9-12b, 15): one step of the model is one whole C function (one _dispatch_timers_run
+   iteration, one _dispatch_source_latch_and_call, one _dispatch_timer_unote_configure ...) executed atomically.  In
+   the library three kinds of threads touch a timer: the manager thread (every heap operation, _dispatch_timers_run,
+   configure/resume of an armed timer: the callers hop to the manager queue first, source.c:771-776 and :866-869), the
+   thread draining the source (latch, handler, configure of a DISARMED timer, source.c:534-578) and client threads
+   (dispatch_source_set_timer).  What is shared between them is accessed as follows, and the theorems assume that this
+   makes the functions behave as if atomic; the assumption is not proved here (no weak-memory / interleaving model):
+   - ds_pending_data: manager: relaxed load event.c:1092, os_atomic_or_orig of the DISARMED marker :1094, stores
+     :1062 :1105 (relaxed) :1109 (release), :879 (configure); handler: os_atomic_xchg(.., 0) source.c:534.  The one
+     window inside a step is load :1092 -> or_orig :1094: a latch between them makes or_orig return 0 and the run takes
+     the "no data pending" route with the value it fetched atomically - the model's two branches at two different
+     states, i.e. latch-then-fire.
+   - dt_pending_config: os_atomic_xchg on both sides (source.c:1320 release, event.c:870 dependency).
+   - dt_timer (target, deadline, interval): written by the manager while the timer is armed or being configured on the
+     manager queue, and by the handler's catch-up (source.c:505-526, compute_missed at :521) only when it latched the
+     DISARMED marker, i.e. after the manager's release store :1109 / or_orig :1094 took the timer out of the heap and
+     before the source is resumed, which happens after the latch in the same invoke (source.c:866 follows :801).
+   The replay of recorded multi-thread runs (check_trace in lib/props/c11.py) checks these orderings on real
+   executions: which thread called what, and that every recorded state equals the model's at that point. *)
 From Coq Require Import ZArith List Bool.
-From Verif Require Import Word Gen_consts Gen_time Gen_timer Time Time_proofs Heap TimerRun Heap_proofs TimerRun_proofs TimerSys_proofs.
+From Verif Require Import Word Gen_consts Gen_time Gen_timer Time Time_proofs Heap TimerRun Heap_proofs TimerRun_proofs TimerSys_proofs TimerSrc_proofs.
 Import ListNotations.
 Local Open Scope Z_scope.
 
@@ -189,21 +209,65 @@ Theorem C11_manager_pass : forall N, 0 <= N /\ 2 * N + 2 <= CAPMAX ->
 Proof. exact manager_pass_total. Qed.
 Print Assumptions C11_manager_pass.
 
-(* 10c. ALWAYS FIRES, as the invariant it is: in every state reachable from boot by client / source-side operations
-   (create, set_timer, register, configure, resume, cancel, suspend, latch), kernel timer expiries and manager passes in
-   any order, for any population of at most N timer records: an armed timer (= uncancelled, not held back by a suspended
-   source, start time below FOREVER) is covered by a pending manager pass (dirty bits set) or by the kernel timer of its
-   clock, armed with an expiry <= the timer's target.  With 10b: after the pass, the second alternative holds and the
-   target is in the future; with 8: when the kernel timer expires and the manager runs, the timer fires.
-   (Delivery of the expiry by timerfd/epoll and the scheduling of the manager thread are outside the model.) *)
-Theorem C11_always_fires : forall N, 0 <= N /\ 2 * N + 2 <= CAPMAX ->
+(* 10c. a timer that is IN ITS HEAP is covered, in every state reachable from boot by operations of the timer machinery
+   issued in any order under their callers' guards (sguard2: the environment is free, it need not follow source.c),
+   kernel timer expiries and manager passes, for any population of at most N timer records: a member of heap i (armed,
+   ident = i; armed implies uncancelled and target < INT64_MAX, GInv) is covered by a pending manager pass (dirty bits
+   set: the manager runs _dispatch_event_loop_drain_timers before it sleeps) or by the kernel timer of its clock, armed
+   with an expiry <= the timer's target.  With 10b: after the pass the second alternative holds and the target is in the
+   future; with 8: when the kernel timer expires and the manager runs, the timer fires.
+   This theorem says nothing about a timer that is NOT in its heap (never resumed, or taken out by a one-shot fire, by a
+   fire with data still pending, by a resume / configure while its source was suspended): that is 10c'. *)
+Theorem C11_armed_covered : forall N, 0 <= N /\ 2 * N + 2 <= CAPMAX ->
   forall n l t i,
   N <= n -> svalid2 N n init_state l -> 0 <= i < 3 ->
   let st := fold_left (sstep n) l init_state in
   member st i t ->
   s_dirty st = true \/ (s_harmed st i = true /\ s_ktimer st i <= t_target (tm st t)).
 Proof. exact always_fires_total. Qed.
+Print Assumptions C11_armed_covered.
+
+(* 10c'. ALWAYS FIRES with the re-arm rule of src/source.c in the state machine (Model/TimerRun.v, "the source side"):
+   the operations on a timer are no longer chosen by a free environment but issued by the source's invoke
+   (_dispatch_source_invoke2: install, configure, latch + handler, unregister, _dispatch_unote_resume, in the order of
+   the code, one action per XInvoke step), and dx_wakeup is called where the code calls it (dispatch_source_set_timer,
+   dispatch_activate, dispatch_resume, dispatch_source_cancel, and _dispatch_source_merge_evt after every fire), with
+   _dispatch_source_wakeup's own test deciding whether the source gets enqueued (x_enq).  Clients may create, set_timer,
+   activate, suspend, resume and cancel in any order (xguard), the manager runs its pass at any time.
+   In every reachable state, for every running timer (registered = activated and neither cancelled-and-unregistered nor
+   a fired dispatch_after; source not cancelled, not suspended; target < INT64_MAX):
+     either a wakeup of its source is pending (x_enq: the source is enqueued or its drainer will look again),
+     or the timer is in its heap and covered as in 10c.
+   BOUNDARY (not proved here, C01/C04): "x_enq" is an abstraction of the lane's enqueue / DIRTY protocol; that an enqueued,
+   unsuspended source is eventually invoked, and that a dx_wakeup racing with an invoke is not lost, are the lane
+   properties.  10c'' shows what the invokes behind a pending wakeup do. *)
+Theorem C11_always_fires : forall N, 0 <= N /\ 2 * N + 2 <= CAPMAX ->
+  forall l t, xvalid N x_init l ->
+  let xs := fst (xrun x_init l) in let st := x_st xs in let i := t_ident (tm st t) in
+  running xs t ->
+  x_enq xs t = true \/
+  (member st i t /\ 0 <= i < 3 /\ (s_dirty st = true \/ (s_harmed st i = true /\ s_ktimer st i <= t_target (tm st t)))).
+Proof. exact always_fires_sources. Qed.
 Print Assumptions C11_always_fires.
+
+(* 10c''. progress of a pending wakeup: for a registered, uncancelled, unsuspended timer source with a wakeup pending, at
+   most two invoke actions (configure or latch-and-call, then _dispatch_unote_resume), each enabled under XInvoke's guard,
+   put the timer into its heap - unless its target is then "never" (>= INT64_MAX: a one-shot timer whose handler ran) *)
+Theorem C11_rearm_progress : forall N, 0 <= N /\ 2 * N + 2 <= CAPMAX ->
+  forall l t n1 n2, xvalid N x_init l ->
+  let xs := fst (xrun x_init l) in
+  1 <= t <= N -> 0 <= n1 < T63 -> 0 <= n2 < T63 -> live xs t ->
+  exists l', (l' = [] \/ l' = [XInvoke t n1] \/ l' = [XInvoke t n1; XInvoke t n2]) /\
+             xvalid N xs l' /\ settled (fst (xrun xs l')) t.
+Proof. exact rearm_progress. Qed.
+Print Assumptions C11_rearm_progress.
+
+(* the invariant behind 10c' - 15: TimerSys's system invariant, an armed unote is registered, and
+   _dispatch_source_wakeup's test being true of an activated, unsuspended source implies a pending wakeup *)
+Theorem C11_source_invariant : forall N, 0 <= N /\ 2 * N + 2 <= CAPMAX ->
+  forall l, xvalid N x_init l -> XInv N (fst (xrun x_init l)).
+Proof. exact source_invariant_reachable. Qed.
+Print Assumptions C11_source_invariant.
 
 (* 10d. the abstract kernel timer of 10-10c (armed flag + programmed expiry) is refined by the timerfd / epoll state machine of
    src/event/event_epoll.c (_dispatch_timeout_program, tied by harness/c11_epoll.c): whenever the abstract timer is armed,
@@ -227,7 +291,11 @@ Theorem C11_set_timer_replaces : forall st t c tg dl itv,
 Proof. exact configure_replaces. Qed.
 Print Assumptions C11_set_timer_replaces.
 
-(* 12. the count reported by dispatch_source_get_data at one invocation = accumulated count + boundaries passed *)
+(* 12. the count reported by dispatch_source_get_data at one invocation = accumulated count + boundaries passed.
+   `latch` is the timer branch of _dispatch_source_latch_and_call (source.c:529-546) with _dispatch_source_timer_data
+   (source.c:505-526) as ONE atomic step: the xchg of ds_pending_data (source.c:534) is atomic in the library; the
+   catch-up that follows it reads and writes dt_timer on the handler's thread, which is only race-free because the
+   DISARMED marker it just latched means the manager has taken the timer out of its heap (see GRANULARITY above) *)
 Theorem C11_latch_count : forall st t now,
   let x := tm st t in
   let prev := t_pending x in
@@ -243,7 +311,10 @@ Theorem C11_latch_count : forall st t now,
 Proof. exact latch_count. Qed.
 Print Assumptions C11_latch_count.
 
-(* 12b. count bound over SEVERAL fires: for every history of fires (at clock readings at which the target has been
+(* 12b. (every event of the history l below is one atomic model step - a whole _dispatch_timers_run iteration or a whole
+   latch; the bound is proved for interleavings of whole steps, see GRANULARITY above for why the library's accesses are
+   taken to behave so and for the one window, load event.c:1092 / or_orig :1094, inside a step)
+   count bound over SEVERAL fires: for every history of fires (at clock readings at which the target has been
    reached, cf. 8) and handler invocations of a repeating timer configured with (start, interval), with the handler
    lagging arbitrarily behind: the sum of the counts reported so far <= the number of boundaries start + k * interval
    that have passed at the latest clock reading.  fire_v / latch_v are the value part of _dispatch_timers_run's fire and
@@ -312,6 +383,28 @@ Theorem C11_dispatch_after : forall k when,
 Proof. exact after_spec. Qed.
 Print Assumptions C11_dispatch_after.
 
+(* 15. dispatch_after runs its block EXACTLY ONCE, the "at most once" half: from any reachable state of the system of 10c'
+   on, and as long as the timer record is not handed to a new source (no XNew t), a timer created with
+   DISPATCH_TIMER_AFTER produces at most one fire event in all manager passes together; once it is "spent" (unote
+   DU_STATE_UNREGISTERED and disarmed: what event.c:1055-1062 leaves behind, or an unregistration) it never fires
+   again; and after its fire it is spent.  Why: the one-shot branch of _dispatch_timers_run disarms AND unregisters the
+   unote; _dispatch_source_refs_needs_rearm is false of an unregistered unote, so invoke2 never resumes it;
+   _dispatch_source_install runs once per source.  (The handler side: the fire stores ds_pending_data = 2, the latch
+   reports 1 and _dispatch_source_latch_and_call releases the source, source.c:579-583.)
+   The "at least once" half is 10c' / 10c'' + 10b + 8: after activation the timer is running, gets resumed into its heap,
+   is covered, and fires when the manager runs at or after its target.
+   The history of the audit (fire, latch, resume, fire again) is not a history of this system, nor any more of the
+   free-environment system of 9-10c: TResume's guard now demands a registered unote, as source.c does. *)
+Theorem C11_after_at_most_once : forall N, 0 <= N /\ 2 * N + 2 <= CAPMAX ->
+  forall l1 l2 t, xvalid N x_init l1 ->
+  let xs := fst (xrun x_init l1) in
+  xvalid N xs l2 -> no_new t l2 -> t_after (tm (x_st xs) t) = true ->
+  (fires_of t (snd (xrun xs l2)) <= 1)%nat /\
+  (spent (tm (x_st xs) t) -> fires_of t (snd (xrun xs l2)) = 0%nat) /\
+  (fires_of t (snd (xrun xs l2)) = 1%nat -> spent (tm (x_st (fst (xrun xs l2))) t)).
+Proof. exact after_fires_at_most_once. Qed.
+Print Assumptions C11_after_at_most_once.
+
 (* non-vacuity: the invariant holds of the empty heap and (by 2) of the heap after three inserts with ties, an update
    and a remove; the run on a concrete state with two due timers and one future timer fires exactly the two *)
 Example C11_nonvacuous :
@@ -333,6 +426,24 @@ Example C11_nonvacuous :
    svalid2 3 3 init_state l /\
    let st := fold_left (sstep 3) l init_state in
    member st 0 1 /\ s_dirty st = false /\ s_harmed st 0 = true /\ s_ktimer st 0 = 140 /\ t_target (tm st 1) = 140) /\
+  (* a valid history of the source-side system (10c', 10c'', 15): a repeating timer 1 and a dispatch_after timer 2 are
+     created, activated and resumed by their invokes; a pass fires timer 1; its source is suspended and given new
+     settings, so the next pass - which fires the dispatch_after timer - takes timer 1 out of its heap; dispatch_resume
+     leaves a wakeup pending (first line of results: pending, timer 1 not armed, timer 2 unregistered and disarmed);
+     the invokes re-arm it and it fires again at the new settings; timer 2 fired exactly once over three passes *)
+  (let l1 := [XNew 1 0; XSetTimer 1 0 100 105 10; XActivate 1; XInvoke 1 50; XInvoke 1 51;
+              XNew 2 64; XAfter 2 200 210; XActivate 2; XInvoke 2 60;
+              XDrain 4 (fun _ => 125); XInvoke 1 126; XInvoke 1 127;
+              XSuspend 1; XSetTimer 1 0 300 305 10; XDrain 4 (fun _ => 250); XInvoke 2 251; XInvoke 2 252;
+              XResume 1] in
+   let l2 := [XInvoke 1 260; XInvoke 1 261; XDrain 4 (fun _ => 400); XExpire 0; XDrain 4 (fun _ => 401)] in
+   xvalid 3 x_init (l1 ++ l2) /\
+   (let xs := fst (xrun x_init l1) in
+    running xs 1 /\ x_enq xs 1 = true /\ t_armed (tm (x_st xs) 1) = false /\ spent (tm (x_st xs) 2)) /\
+   (let xs := fst (xrun x_init (l1 ++ l2)) in
+    t_armed (tm (x_st xs) 1) = true /\ t_target (tm (x_st xs) 1) = 410 /\
+    map (fun '(t, p, _, _) => (t, p)) (snd (xrun x_init (l1 ++ l2))) = [(1, 6); (2, 2); (1, 22)] /\
+    fires_of 2 (snd (xrun x_init (l1 ++ l2))) = 1%nat)) /\
   (* count bound (12b): fire at 135 (4 boundaries of 100+10k), lagging second fire, latch, fire, latch *)
   (tevs_ok (100, 105, 10, 0, 0, 0) [EFire 135 true; EFire 150 false; ELatch 171; EFire 200 true; ELatch 200] /\
    play (100, 105, 10, 0, 0, 0) [EFire 135 true; EFire 150 false; ELatch 171; EFire 200 true; ELatch 200] =
@@ -344,6 +455,9 @@ Proof.
     + cbn [svalid2 sguard2 guard guardV external].
       repeat split; try lia; try (vm_compute; congruence); try (vm_compute; reflexivity); try (intros i Hi; unfold T63; lia).
     + vm_compute. repeat split; congruence.
-  - split; [|vm_compute; reflexivity].
+  - split.
+    { cbv zeta. split; [vm_compute; repeat split; try congruence; try (intros; split; congruence)|].
+      split; vm_compute; repeat split; congruence. }
+    split; [|vm_compute; reflexivity].
     cbn [tevs_ok tev_ok tev_now play1 fst]. vm_compute. intuition congruence.
 Qed.
